@@ -6,6 +6,7 @@ pub mod dump;
 pub mod imgx;
 pub mod model;
 pub mod par;
+pub mod persist_kit;
 pub mod polex;
 pub mod report;
 pub mod resp;
